@@ -254,6 +254,8 @@ def mon_hist(r, pid):
                 counts[key] = counts.get(key, 0) + 1
                 if pid == "C01" and counts[key] > 1:
                     return "step %d: OnRecvPacket ran twice for destination (%s,%s) sequence %s" % (i, e[1], e[2], e[3])
+                if pid == "C01" and prev_proj[ci] is not None and any((x[0], x[1], x[2]) == (e[1], e[2], e[3]) for x in prev_proj[ci]["r1"]):
+                    return "step %d: OnRecvPacket ran for (%s,%s) sequence %s although its receipt was already stored" % (i, e[1], e[2], e[3])
                 if ordered.get((ci, e[1], e[2])):
                     seqs_recv.setdefault((ci, e[1], e[2]), []).append(int(e[3]))
             elif kind == "recv2":
@@ -261,6 +263,8 @@ def mon_hist(r, pid):
                 counts[key] = counts.get(key, 0) + 1
                 if pid == "C01" and counts[key] > 1:
                     return "step %d: v2 OnRecvPacket ran twice for destination %s sequence %s payload %s" % (i, e[1], e[2], e[3])
+                if pid == "C01" and prev_proj[ci] is not None and any((x[0], x[1]) == (e[1], e[2]) for x in prev_proj[ci]["r2"]):
+                    return "step %d: v2 OnRecvPacket ran for %s sequence %s although its receipt was already stored" % (i, e[1], e[2])
             elif kind in ("ack1", "timeout1"):
                 key = (ci, "term1") + _key1(e)
                 term[key] = term.get(key, 0) + 1
